@@ -33,6 +33,13 @@ def _init_worker(modname, tier, seed, path):
     import logging
     warnings.filterwarnings('ignore')
     logging.disable(logging.CRITICAL)          # scared logs through the logging module; the checks' stdout carries the verdict lines only
+    try:                                        # a worker must not outlive a killed runner (PR_SET_PDEATHSIG = 1, SIGKILL = 9)
+        import ctypes
+        ctypes.CDLL('libc.so.6', use_errno=True).prctl(1, 9)
+        if os.getppid() == 1:
+            os._exit(0)
+    except Exception:
+        pass
     for p_ in path:
         if p_ not in sys.path:
             sys.path.append(p_)
